@@ -54,6 +54,14 @@ def run(ck, m):
     _run(ck, m)
     refused_write_silent(ck, m)
     raw_writer_keeps_value(ck, m)
+    from nl import alias as _alias3
+    from props import C19 as _C19, C13 as _C13
+    ck.rule('C03.m', 'a versioned write that LOSES a Newer resolution notifies nobody (C19.a / C19.b, repeated): on the losing edge of the comparison the '
+                     'resolver calls no notifying store — a "re-write of the winner" announces a change for a write that was refused')
+    _alias3.repeat(ck, m, 'C19', ('C19.a', 'C19.b'), 'C03.m', runner=_C19._run, floor=2)
+    ck.rule('C03.n', 'another session\'s unwatch never ends this subscription: no entry of Watchers.map is removed (C13.h, repeated) — the list is '
+                     'filtered for the caller\'s sender and stored back, whatever its length')
+    _alias3.repeat(ck, m, 'C13', ('C13.h',), 'C03.n', runner=_C13.watchers_monotone)
 
 
 def _run(ck, m):
